@@ -1,0 +1,68 @@
+//go:build verif
+
+// Contracts for package store, read by the verification-condition generator in /verif/vf.
+// Comment-only: with the tag off this file is not compiled; with the tag on it adds nothing.
+
+package store
+
+//@ pred wfEntries(es) :=
+//@      (forall i int :: 0 <= i && i < len(es) ==> es[i] != nil)
+//@   && (forall i, j int :: 0 <= i && i < j && j < len(es) ==> string(es[i].Path) < string(es[j].Path))
+//@
+//@ pred wfIndex(idx) :=
+//@      int(idx.EntryNum) == len(idx.Entries) && wfEntries(idx.Entries)
+
+//@ func Index.GetEntry
+//@   returns pos, e, found
+//@   pure
+//@   requires wfIndex(idx)
+//@   ensures [sound] {C06,C04,C09,C13} found ==> 0 <= pos && pos < len(idx.Entries) && e == idx.Entries[pos] && string(e.Path) == string(path)
+//@   ensures [complete] {C06,C04,C09,C13} !found ==> pos == -1 && e == nil && (forall i int :: 0 <= i && i < len(idx.Entries) ==> string(idx.Entries[i].Path) != string(path))
+//@   loop 0:
+//@     invariant 0 <= left && left < right && right <= len(idx.Entries)
+//@     invariant forall i int :: 0 <= i && i < left ==> string(idx.Entries[i].Path) < string(path)
+//@     invariant forall i int :: right <= i && i < len(idx.Entries) ==> string(path) < string(idx.Entries[i].Path)
+//@     decreases right - left
+
+//@ func Index.write
+//@   returns err
+//@   pure
+//@   requires wfIndex(idx)
+
+//@ func Index.Update
+//@   returns changed, err
+//@   modifies Index.Entries, Index.Header
+//@   requires wfIndex(idx)
+//@   requires [pathlen] len(path) <= 65535
+//@   ensures [wf] {C06,C04} wfIndex(idx)
+//@   ensures [present] {C04,C06,C09} err == nil ==> exists k int :: 0 <= k && k < len(idx.Entries) && string(idx.Entries[k].Path) == string(path) && string(idx.Entries[k].Hash) == string(hash)
+//@   ensures [others-kept] {C04,C06,C09} forall i int :: 0 <= i && i < len(old(idx.Entries)) && string(old(idx.Entries)[i].Path) != string(path) ==> exists j int :: 0 <= j && j < len(idx.Entries) && idx.Entries[j] == old(idx.Entries)[i]
+//@   ensures [nothing-new] {C04,C06,C09} forall j int :: 0 <= j && j < len(idx.Entries) ==> (string(idx.Entries[j].Path) == string(path) && string(idx.Entries[j].Hash) == string(hash)) || (exists i int :: 0 <= i && i < len(old(idx.Entries)) && old(idx.Entries)[i] == idx.Entries[j])
+//@   ensures [noop] {C04} !changed && err == nil ==> seqEq(idx.Entries, old(idx.Entries))
+
+//@ func Index.DeleteEntry
+//@   returns err
+//@   modifies Index.Entries, Index.Header
+//@   requires wfIndex(idx)
+//@   ensures [wf] {C06,C04} wfIndex(idx)
+//@   ensures [refused-unchanged] {C04,C18} (forall i int :: 0 <= i && i < len(old(idx.Entries)) ==> string(old(idx.Entries)[i].Path) != string(path)) ==> err != nil && seqEq(idx.Entries, old(idx.Entries))
+//@   ensures [gone] {C04,C09} (exists i int :: 0 <= i && i < len(old(idx.Entries)) && string(old(idx.Entries)[i].Path) == string(path)) ==> forall j int :: 0 <= j && j < len(idx.Entries) ==> string(idx.Entries[j].Path) != string(path)
+//@   ensures [others-kept] {C04,C09} forall i int :: 0 <= i && i < len(old(idx.Entries)) && string(old(idx.Entries)[i].Path) != string(path) ==> exists j int :: 0 <= j && j < len(idx.Entries) && idx.Entries[j] == old(idx.Entries)[i]
+//@   ensures [nothing-new] {C04,C09} forall j int :: 0 <= j && j < len(idx.Entries) ==> exists i int :: 0 <= i && i < len(old(idx.Entries)) && old(idx.Entries)[i] == idx.Entries[j]
+
+//@ pred wfHeads(hs) :=
+//@      (forall i int :: 0 <= i && i < len(hs) ==> hs[i] != nil)
+//@   && (forall i, j int :: 0 <= i && i < j && j < len(hs) ==> hs[i].Name < hs[j].Name)
+//@ pred wfRefs(r) := wfHeads(r.Heads)
+
+//@ func Refs.getBranchPos
+//@   returns pos
+//@   pure
+//@   requires wfRefs(r)
+//@   ensures [sound] {C10} pos != -1 ==> 0 <= pos && pos < len(r.Heads) && r.Heads[pos].Name == branchName
+//@   ensures [complete] {C10} pos == -1 ==> forall i int :: 0 <= i && i < len(r.Heads) ==> r.Heads[i].Name != branchName
+//@   loop 0:
+//@     invariant 0 <= left && left < right && right <= len(r.Heads)
+//@     invariant forall i int :: 0 <= i && i < left ==> r.Heads[i].Name < branchName
+//@     invariant forall i int :: right <= i && i < len(r.Heads) ==> branchName < r.Heads[i].Name
+//@     decreases right - left
